@@ -3,7 +3,7 @@ import SecsModel.Proofs.PairBridge
 # C20b — one endpoint of the abstract pair model IS the product of the C05 and C07 endpoint models
 
 `Model.Pair` (C20) was validated against the real pair only through observed transition traces.  Here every step an endpoint of
-`Model.Pair` can take is shown to be what the product of `Model.Hsms.step Defects.code` (C05, correspondence-checked against the real
+`Model.Pair` can take is shown to be what the product of `Model.Hsms.step Defects.none` (C05, correspondence-checked against the real
 `HsmsProtocol`) and `Model.GemComm.step` (C07, correspondence-checked against the real `GemHandler`) does on the corresponding inputs
 (`Proofs/PairBridge.lean`: `prodStep`, `absEnd`, `Coupled`, `absFrames`, and what the abstraction forgets).
 
@@ -23,7 +23,7 @@ open SecsModel.Model.GemComm (State Cfg)
 set_option hygiene false
 -- unfold the product, both endpoint models on their generated tables, and the pair model
 local macro "bridge_simp" : tactic => `(tactic| simp [*, prodDeliver, prodStep, gemStep, prodDisable, inputOf, Model.Hsms.step, Model.Hsms.handleCtrl, Model.Hsms.handleData, Model.Hsms.withTransition,
-      Model.Hsms.reject, Defects.code,
+      Model.Hsms.reject, Defects.none, Model.Hsms.startTimer, Model.Hsms.cancelTimer, leavesConnected_eq,
       smCall_select_ns, smCall_select_sel, smCall_disconnect_ns, smCall_disconnect_sel, Model.Hsms.afterTransition, entersConnected_eq, entersSelected_eq,
       code_selReq, code_selRsp, code_rejReq, code_sepReq, toGem_communicating, toGem_app, toGem_tx, toGem_swallowed, toGem_waiter, toGem_connected, toGem_disconnected, List.filterMap_cons, List.filterMap_nil, putIfOpen_gem, putIfOpen_frames, putIfOpen_conn, putIfOpen_disc, putIfOpen_active,
       runG, Model.GemComm.step, Model.GemComm.onMessage, perform_eq, allowed, leaveEffects_eq, enterEffects_eq, Model.GemComm.sendS1F13,
@@ -37,7 +37,7 @@ local macro "bridge_intro" cfg:ident hcfg:ident h:ident g:ident hc:ident : tacti
   (obtain ⟨role, creq, ucb, sc, cg⟩ := $cfg
    obtain ⟨h1, h2, h3, h4⟩ := $hcfg
    simp only at h1 h2 h3 h4; subst h1 h2 h3
-   obtain ⟨c, dc, ac, ctr, opn⟩ := $h
+   obtain ⟨c, dc, ac, ctr, opn, lts, lto⟩ := $h
    obtain ⟨gc, cn, sl, a, b, n, ms, q⟩ := $g
    simp only [Coupled, coupledB, Bool.and_eq_true, beq_iff_eq, Bool.not_eq_true', Bool.or_eq_true, decide_eq_true_eq] at $hc:ident
    obtain ⟨⟨⟨⟨⟨⟨⟨⟨hl, hcn⟩, ho⟩, he⟩, ht⟩, hd⟩, hs⟩, hdc⟩, hq⟩ := $hc
@@ -50,16 +50,20 @@ set_option hygiene true
 
 /-- **A message delivered to a coupled endpoint.**  The product handles the session input the message is (`inputOf`: any system
 bytes; for an S1F14 no local requester may wait on them — S1F13 is sent with `send_stream_function`, which opens no transaction) and
-feeds the handler what the session layer hands up (`communicating` ⇒ `linkSelected`, `message_received` ⇒ `rx 1 13/14`).  The result is
+feeds the handler what the session layer hands up (`communicating` ⇒ `linkSelected`, `message_received` ⇒ `rx 1 13/14`).  A Select.rsp
+is the answer to the Select.req this endpoint has open (`hsel`; in `Model.Pair` a `selRsp` is only ever sent in answer to a `selReq` —
+an unsolicited one is dropped by the code, `C05_unsolicited_rsp_silent`).  The result is
 coupled, its abstraction is `(Pair.handle e m).1`, and the frames written are exactly `(Pair.handle e m).2`. -/
 theorem sim_deliver (cfg : Cfg) (hcfg : Shipped cfg) (h : St) (g : State) (en : Bool) (hc : Coupled h g en)
-    (m : Model.Pair.Msg) (sys : Int) (k : Nat) (hw : (∃ ok, m = .s1f14 ok) → isOpen h sys = false) :
+    (m : Model.Pair.Msg) (sys : Int) (k : Nat) (hw : (∃ ok, m = .s1f14 ok) → isOpen h sys = false)
+    (hsel : m = .selRsp → Model.Hsms.isOpenKind h sys .select = true) :
     let r := prodDeliver cfg h g m sys k
     Coupled r.1.1 r.1.2 en
     ∧ absEnd r.1.1 r.1.2 en = (Model.Pair.handle (absEnd h g en) m).1
     ∧ absFrames r.2.1 r.2.2 = (Model.Pair.handle (absEnd h g en) m).2 := by
   bridge_intro cfg hcfg h g hc
   cases c <;> cases gc <;> (try (simp [occurs] at ho; done)) <;> (try (simp at hs; done)) <;> rcases m with _ | _ | _ | ⟨_ | _⟩
+  all_goals (try (have hsel' := hsel rfl))
   all_goals (try simp at hw)
   all_goals (try simp at hq)
   all_goals bridge_simp
@@ -167,7 +171,7 @@ def cfgShipped : Cfg := { commackGate := true }
 example : Shipped cfgShipped := by decide
 
 /-- a coupled endpoint that is connected but NOT SELECTED and waits in WAIT_DELAY (reached by: T3 in WAIT_CRA, link lost, link up) -/
-def hNs : St := ⟨.notSelected, false, false, 1000, []⟩
+def hNs : St := ⟨.notSelected, false, false, 1000, [], false, 0⟩
 def gDelay (connected : Bool) : State := { comm := .waitDelay, connected := connected, delayArmed := true, nextSys := 3 }
 
 /-- **Agreement (NOT SELECTED, WAIT_DELAY, delay expires)** — formerly the disagreement D1, gone since `Model.GemComm` separates
@@ -187,7 +191,7 @@ theorem delay_not_selected_agrees :
 queues the S1F13 and writes it at the next link-up (`linkConnected`), as the code does — first frame of the new connection, where the
 peer, still NOT SELECTED, answers Reject.req, which the sender ignores.  The states agree throughout. -/
 theorem delay_not_connected_flushed_at_linkUp :
-    let hNc : St := ⟨.notConnected, false, false, 1000, []⟩
+    let hNc : St := ⟨.notConnected, false, false, 1000, [], false, 0⟩
     let r1 := gemStep cfgShipped hNc (gDelay false) .delayExpired
     let r2 := prodStep cfgShipped r1.1.1 r1.1.2 .connect none
     Coupled hNc (gDelay false) true
